@@ -110,6 +110,9 @@ def c11_fire(ctx, carrier, step_ft, kw, wind, rlo, rhi, mode, rmax, fine=None):
         recorded = [s['data'] for s in spy if s['data'] is not None]
         ok = len(rows) >= len(recorded)
         ctx.check('rows_are_the_recorded_data', ok and all(ctx.same_term(rows[j].time, recorded[j].time) for j in range(len(recorded))))
+        # nothing else is returned - except the documented padding row (flag NONE) when fewer than two rows were recorded
+        ctx.check('no_rows_besides_the_recorded_ones', len(rows) == len(recorded) or (len(recorded) < 2 and len(rows) == 2 and rows[-1].flag == TF.NONE),
+                  info={'rows': len(rows), 'recorded': len(recorded)})
     # 3. extra = plain + events
     plain, ext = runs[False][0], runs[True][0]
     ext_range = [r for r in ext if r.flag & TF.RANGE]
